@@ -224,7 +224,7 @@ static void init_case(int variant, int L, int fam, int failpos, int mv)
     }
     if (CNT_FOREIGN) FAIL("c06-init-count", "type initialisation called %d time(s) for an object that is not an entry of the dictionary", CNT_FOREIGN);
     if (CNT_BADNODE) FAIL("c06-init-count", "type initialisation called %d time(s) with a foreign node pointer", CNT_BADNODE);
-    if (OBS.fatal) FAIL("fatal-error callback invoked", "during CONodeInit");
+    if (OBS.fatal) FAIL("safety:fatal-error callback invoked", "during CONodeInit");
     /* not demanded by the statement, logged only: a later NMT reset */
     if (mc_verbose) { CONmtReset(&Node.Nmt, CO_RESET_NODE); mc_log("  after NMT reset node: counters"); for (int k = 0; k < ncount; k++) mc_log(" %d", CNT[counting[k]]); mc_log("\n"); }
     if (want_sample()) snprintf(smp, sizeof smp, "init: %d entries (%d counting, variant %d family %d, failing #%d, DictLen %d) -> first=%d last=%d", IN, ncount, variant, fam, failpos,
@@ -365,7 +365,7 @@ static void typed_case(int e, uint8_t nid, uint32_t v)
         h = hmix(h, (uint64_t)(err != CO_ERR_NONE));
     }
     for (int k = 0; k < NTE; k++) if (k != e && raw_get(&TE[k]) != TE[k].init) FAIL("c06-typed-sideeffect", "access to the %s changed another entry (%04X: %X -> %X)", ent_name(t), TE[k].idx, TE[k].init, raw_get(&TE[k]));
-    if (OBS.fatal) FAIL("fatal-error callback invoked", "typed access");
+    if (OBS.fatal) FAIL("safety:fatal-error callback invoked", "typed access");
     if (want_sample()) snprintf(smp, sizeof smp, "node id %u, %s: write %X stores %X, reads back %X", nid, ent_name(t), v, raw, back);
     mc_case_end(h, 1, want_sample() ? smp : 0);
 }
@@ -487,7 +487,7 @@ static void buffer_case(int mode, int S, int len)
             else if (memcmp(DMEM, oldd, sizeof DMEM)) FAIL("c06-buffer-overrun", "read changed the domain memory");
         }
     }
-    if (OBS.fatal) FAIL("fatal-error callback invoked", "buffer access");
+    if (OBS.fatal) FAIL("safety:fatal-error callback invoked", "buffer access");
     if (want_sample()) snprintf(smp, sizeof smp, "%s %d byte(s) %s a %d-byte %s: moved %d, again %d", mode == 1 ? "write" : "read", len, mode == 1 ? "to" : "from", S, what, got[0], got[1]);
     mc_case_end(hmix(hmix(4, (uint64_t)(got[0] + 1)), (uint64_t)(got[1] + 1) * 3 + (uint64_t)mode), exp > 0, want_sample() ? smp : 0);
 }
